@@ -198,6 +198,8 @@ def handle (args : List String) (impl : String) : R Ans :=
         let jsonOk := flags.any (· == "jsonok=1")
         -- `to_gfa` writes to a file what `write_gfa` writes to a writer (compared by the harness)
         let fileOk := flags.any (· == "gfafile=1")
+        -- and into a writer that accepts only a few bytes per `write` call (pipes, sockets, encoders do that)
+        let shortOk := flags.any (· == "gfashort=1")
         pure (if ¬ segOk then "FAIL:gfa-segments"
               else if ¬ ovOk then "FAIL:gfa-overlap-field"
               else if ¬ sound then "FAIL:gfa-lists-a-link-that-is-not-an-adjacency"
@@ -205,6 +207,7 @@ def handle (args : List String) (impl : String) : R Ans :=
               else if ¬ once then "FAIL:gfa-duplicates-a-link"
               else if ¬ jsonOk then "FAIL:json-not-well-formed-or-incomplete"
               else if ¬ fileOk then "FAIL:to_gfa-file-differs-from-write_gfa"
+              else if ¬ shortOk then "FAIL:write_gfa-into-a-short-writing-sink-differs"
               else "ok")
       | _ => pure "FAIL:malformed-answer"
     -- the model compares the two texts only (flags are the harness's own checks)
